@@ -305,7 +305,16 @@ func runC15Join(c *Ctx) {
 				case ln != nil:
 					l1, okA := idx.Call.Args[1].(*ssa.UnOp)
 					l2, okB := ln.Call.Args[0].(*ssa.UnOp)
-					if !okA || !okB || l1.X != l2.X {
+					sameLabel := okA && okB && l1.X == l2.X
+					if idx.Call.Args[1] == ln.Call.Args[0] {
+						sameLabel = true
+					}
+					if s1, ok1 := constString(idx.Call.Args[1]); ok1 {
+						if s2, ok2 := constString(ln.Call.Args[0]); ok2 && s1 == s2 {
+							sameLabel = true
+						}
+					}
+					if !sameLabel {
 						bad = append(bad, "the offset skipped after the label is the length of a different label than the one found at "+p.Pos(sl.Pos()))
 					}
 				default:
